@@ -74,6 +74,8 @@ class C14(C01):
             Entry(b"z64", txt, method=8, z64=("usize", "csize")),
             Entry(b"extra", b"e", extra_local=struct.pack("<HH", 0xbeef, 3) + b"abc", extra_central=struct.pack("<HH", 0xcafe, 1) + b"z"),
             Entry(b"commented", b"e", comment=b"entry comment"),
+            # sizes on different sides of the 32-bit limit: a small payload of an undecodable method that claims > 4 GiB
+            Entry(b"huge-claim.xz", b"x", method=95, payload=bytes(range(27)), usize=5 * (1 << 30) + 12345, need=63),
         ]
         try:
             S.append(("genzip", genzip.build(ents)[0], ents))
